@@ -121,7 +121,7 @@ pub fn run_c01(ctx: &mut Ctx) {
             }
         }
     }
-    let n = ctx.n(60_000, 4_000_000);
+    let n = ctx.n(300_000, 8_000_000);
     random_cases!(ctx, n, |r, i| {
         let mut cfg = ProgCfg::classic();
         cfg.mutate_16 = *r.pick(&[0u64, 2, 4, 8]);
